@@ -208,6 +208,26 @@ fn main() {
                 _ => {}
             }
         }
+        // C03, use_rawnumber: the embedded / streamed (copy-out) parse keeps every number's text exactly, sign included
+        if want("C03") && ok {
+            #[derive(serde::Deserialize)] struct W2 { v: sonic_rs::Value }
+            let wrapped = format!("{{\"v\":{}}}", txt);
+            let streamed = format!("0 {}", txt);
+            let r = catch_unwind(AssertUnwindSafe(|| {
+                let whole = sonic_rs::Deserializer::from_str(txt).use_rawnumber().deserialize::<sonic_rs::Value>().map(|v| v.to_string());
+                let emb = sonic_rs::Deserializer::from_str(&wrapped).use_rawnumber().deserialize::<W2>().map(|w| w.v.to_string());
+                let second = sonic_rs::Deserializer::from_str(&streamed).use_rawnumber().into_stream::<sonic_rs::Value>().nth(1).map(|x| x.map(|v| v.to_string()));
+                (whole, emb, second)
+            }));
+            match r {
+                Err(_) => report("C03", format!("use_rawnumber parse of {} panicked", show(d))),
+                Ok((Ok(a), emb, second)) => {
+                    match emb { Ok(b) if a != b => report("C03", format!("use_rawnumber: embedded parse of {} gives {} but whole-input parse gives {}", show(d), b, a)), Err(_) => report("C03", format!("use_rawnumber: embedded parse of well-formed {} failed", show(d))), _ => {} }
+                    match second { Some(Ok(b)) if a != b => report("C03", format!("use_rawnumber: {} as the second document of a stream gives {} but whole-input parse gives {}", show(d), b, a)), Some(Err(_)) | None => report("C03", format!("use_rawnumber: {} as the second document of a stream failed", show(d))), _ => {} }
+                }
+                _ => {}
+            }
+        }
         // C12 / C14: checked iterators yield only well-formed items, and exactly the elements for well-formed arrays
         if want("C12") || want("C14") {
             let mut errs = 0;
@@ -236,6 +256,24 @@ fn main() {
         // the elements / members, and a clone taken after children were read still serializes verbatim
         if want("C13") && ok {
             let trimmed = txt.trim_matches(|c| c == ' ' || c == '\n' || c == '\t' || c == '\r');
+            // scalar accessors of the lazy flavours against the DOM of the same text (also for the first children)
+            {
+                use sonic_rs::JsonValueTrait;
+                fn acc<T: JsonValueTrait>(v: &T) -> String { format!("{:?} {:?} {:?} {:?} {:?} {:?}", v.get_type(), v.as_bool(), v.as_i64(), v.as_u64(), v.as_f64().map(f64::to_bits), v.as_str()) }
+                let r = catch_unwind(AssertUnwindSafe(|| -> Option<String> {
+                    let dom: sonic_rs::Value = sonic_rs::from_str(txt).ok()?;
+                    let lv: sonic_rs::LazyValue = match sonic_rs::from_str(txt) { Ok(v) => v, Err(e) => return Some(format!("from_str::<LazyValue>({}) rejects a well-formed text: {e}", show(d))) };
+                    let ov: sonic_rs::OwnedLazyValue = sonic_rs::from_str(txt).ok()?;
+                    if acc(&lv) != acc(&dom) { return Some(format!("LazyValue of {}: accessors {} vs DOM {}", show(d), acc(&lv), acc(&dom))); }
+                    if acc(&ov) != acc(&dom) { return Some(format!("OwnedLazyValue of {}: accessors {} vs DOM {}", show(d), acc(&ov), acc(&dom))); }
+                    let ov2 = sonic_rs::OwnedLazyValue::from(lv.clone());
+                    if acc(&ov2) != acc(&dom) { return Some(format!("OwnedLazyValue::from(LazyValue) of {}: accessors {} vs DOM {}", show(d), acc(&ov2), acc(&dom))); }
+                    for i in 0..3usize { if let (Some(a), Some(b), Some(c)) = (lv.get(i), ov.get(i), dom.get(i)) { if acc(&a) != acc(c) { return Some(format!("LazyValue of {}: element {i} accessors {} vs DOM {}", show(d), acc(&a), acc(c))); } if acc(b) != acc(c) { return Some(format!("OwnedLazyValue of {}: element {i} accessors {} vs DOM {}", show(d), acc(b), acc(c))); } } }
+                    for k in ["a", "b", "k"] { if let (Some(a), Some(b), Some(c)) = (lv.get(k), ov.get(k), dom.get(k)) { if acc(&a) != acc(c) { return Some(format!("LazyValue of {}: member {k:?} accessors {} vs DOM {}", show(d), acc(&a), acc(c))); } if acc(b) != acc(c) { return Some(format!("OwnedLazyValue of {}: member {k:?} accessors {} vs DOM {}", show(d), acc(b), acc(c))); } } }
+                    None
+                }));
+                match r { Ok(Some(m)) => report("C13", m), Err(_) => report("C13", format!("lazy accessors over {} panic", show(d))), _ => {} }
+            }
             let r = catch_unwind(AssertUnwindSafe(|| {
                 let olv: sonic_rs::OwnedLazyValue = match sonic_rs::from_str(txt) { Ok(v) => v, Err(e) => return Some(format!("from_str::<OwnedLazyValue>({}) rejects a well-formed text: {e}", show(d))) };
                 match sonic_rs::to_string(&olv) { Ok(s) if s == trimmed => {} other => return Some(format!("OwnedLazyValue of {} serializes to {:?}", show(d), other.ok())) }
@@ -446,6 +484,28 @@ fn main() {
             let r = catch_unwind(AssertUnwindSafe(|| { let mut de = sonic_rs::Deserializer::from_slice(b); <sonic_rs::LazyValue as serde::Deserialize>::deserialize(&mut de).is_ok() }));
             if let Ok(true) = r { report(pid, format!("LazyValue::deserialize(&mut Deserializer::from_slice({})) accepted invalid UTF-8", show(b))); }
         }
+    }
+    // C09 / C02: long literals for the typed string decoders (String, map key), positions across the 32-byte blocks:
+    // a special byte (raw control character, quote, backslash escape, bad escape) at every offset 0..70 of a filler,
+    // optionally followed by an escape a few bytes later; against the reference recogniser and decoder
+    if want("C09") || want("C02") {
+        let pid = if want("C09") { "C09" } else { "C02" };
+        fn ref_decode(lit: &[u8]) -> Option<String> { // lit includes the quotes; None = malformed
+            if string(lit, 1) != Some(lit.len()) { return None; }
+            serde_json::from_slice::<String>(lit).ok()
+        }
+        let specials: [&[u8]; 9] = [b"\x01", b"\x1f", b"\n", b"\\n", b"\\u00e9", b"\\x", b"\\ud800", b"\\\"", b"\xc3\xa9"];
+        let tails: [&[u8]; 4] = [b"", b"\\n", b"\\\\", b"\x02"];
+        for pre in [0usize, 1, 2, 29, 30, 31, 32, 33, 61, 62, 63, 64, 65, 70] { for sp in specials.iter() { for gap in [0usize, 1, 5, 31, 40] { for tl in tails.iter() { for post in [0usize, 3, 40] {
+            let mut lit = vec![b'"']; lit.extend(std::iter::repeat(b'c').take(pre)); lit.extend_from_slice(sp); lit.extend(std::iter::repeat(b'd').take(gap)); lit.extend_from_slice(tl); lit.extend(std::iter::repeat(b'e').take(post)); lit.push(b'"');
+            let Ok(txt) = std::str::from_utf8(&lit) else { continue };
+            let want_v = ref_decode(&lit);
+            let got = catch_unwind(AssertUnwindSafe(|| sonic_rs::from_str::<String>(txt).ok()));
+            match got { Err(_) => report(pid, format!("from_str::<String>({}) panics", show(&lit))), Ok(g) => if g != want_v { report(pid, format!("from_str::<String>({}) = {:?}, reference {:?}", show(&lit), g, want_v)) } }
+            let doc = format!("{{{}:1}}", txt);
+            let gotk = catch_unwind(AssertUnwindSafe(|| sonic_rs::from_str::<std::collections::BTreeMap<String, u8>>(&doc).ok().and_then(|m| m.into_keys().next())));
+            match gotk { Err(_) => report(pid, format!("map key {} panics", show(&lit))), Ok(g) => if g != want_v { report(pid, format!("map key {} decodes to {:?}, reference {:?}", show(&lit), g, want_v)) } }
+        } } } } }
     }
     // C03 (lossy configuration): a stream of Values over input with invalid UTF-8 inside string literals — every
     // document after the first must still be read from its own first byte
